@@ -92,7 +92,15 @@ func (a *vfAssembly) build() (err error) {
 	if err != nil {
 		return fmt.Errorf("VERIF-INCONCLUSIVE bcrypt: %w", err)
 	}
-	config.Users = []webUser{{Name: vfAdminUser, PasswordHash: string(hash)}}
+	config.Users = []webUser{
+		{Name: vfAdminUser, PasswordHash: string(hash)},
+		// accounts nobody can log in to: no hash, a plaintext "hash", a hash
+		// of another scheme, a truncated bcrypt hash
+		{Name: "nohash", PasswordHash: ""},
+		{Name: "plaintext", PasswordHash: "letmein"},
+		{Name: "md5crypt", PasswordHash: "$1$saltsalt$qjXMvbEw8oaL.CzflDtaK/"},
+		{Name: "shortbcrypt", PasswordHash: string(hash[:20])},
+	}
 	config.AuthAttempts = 5
 	config.AuthBlockMin = 15
 	config.HTTPConfig.Address = netip.MustParseAddrPort("127.0.0.1:0")
@@ -272,3 +280,19 @@ func vfShiftSessions(a *Auth, d time.Duration) {
 }
 
 var _ = filepath.Join
+
+// vfWeakUsers are the configured accounts without a usable password hash.
+var vfWeakUsers = []string{"nohash", "plaintext", "md5crypt", "shortbcrypt"}
+
+// vfRestartAuth closes the authentication module and creates it again from
+// the same session database and users, as a restart of the program does.
+func vfRestartAuth() (err error) {
+	old := globalContext.auth
+	users := old.usersList()
+	old.Close()
+	config.Users = users
+	globalContext.auth, err = initUsers()
+
+	return err
+}
+
